@@ -18,23 +18,26 @@ def patched(self, op1, op2):
     return r
 opparse.OperatorPrecedenceTower.__call__ = patched
 
-atoms = ["x", "x as y", "x:T", "x=1", "$x", "#value", "x as y:T", "*:T"]
-ctx = ["a", "a as b", "a:T", "a=1", "$a"]
+atoms = ["x", "x as y", "x:T", "x=1", "$x", "#value", "x as y:T", "*:T", "x as y=1", "$x:T", "x:T=1", "$x=1", "x as y:T=1"]
+ctx = ["a", "a as b", "a:T", "a=1", "$a", "a as b:T", "$a:T"]
 laws = []
 for x in atoms:
-    laws.append(("L1 f > X == f(!X)", f"f > {x}", f"f(!{x})" if not x.startswith("$") else f"f(!{x})"))
+    laws.append(("L1 f > X == f(!X)", f"f > {x}", f"f(!{x})"))
     for a in ctx:
         laws.append(("L2 f(A) > X == f(A, !X)", f"f({a}) > {x}", f"f({a}, !{x})"))
     laws.append(("L3 a > b > X == a > (b > X)", f"a > b > {x}", f"a > (b > {x})"))
     laws.append(("L3' a > b > X == a(b(!X))", f"a > b > {x}", f"a(b(!{x}))"))
 laws += [("L4 f() as r == f(!#value as r)", "f() as r", "f(!#value as r)"),
          ("L4' g > f() as r", "g > f() as r", "g > f(!#value as r)"),
-         ("L5 $x == * as x", "$x", "* as x"), ("L5' f > $x", "f > $x", "f > * as x"),
-         ("L5'' f($x)", "f($x)", "f(* as x)"),
          ("L6 f(b)=c == f(b, #value=c)", "f(b)=c", "f(b, #value=c)"),
          ("L6' g(f(b)=c)", "g(f(b)=c, !z)", "g(f(b, #value=c), !z)"),
          ("L7 a:T(c) == (a:T)(c)", "a:T(c)", "(a:T)(c)"),
          ("L8 a == (a)", "a", "(a)")]
+# $x == * as x for every suffix the grammar allows after the capture (tag, value, both) and in every position
+for sfx in ["", ":T", "=1", ":T=1"]:
+    laws += [("L5 $x == * as x", f"$x{sfx}", f"* as x{sfx}"), ("L5a f > $x", f"f > $x{sfx}", f"f > * as x{sfx}"),
+             ("L5b f($x)", f"f($x{sfx})", f"f(* as x{sfx})"), ("L5c f(!$x)", f"f(!$x{sfx})", f"f(!* as x{sfx})"),
+             ("L5d a > b > $x", f"a > b > $x{sfx}", f"a(b(!* as x{sfx}))")]
 
 def holds(l, r):
     try: a = sel.parse(l)
